@@ -239,7 +239,7 @@ def fold (s : OffsetsBase) : List Nat :=
     else
       let (outer', adv) := stepOuterLoop s.outerRev
       if adv then
-        r ++ foldOuter s.inner0.stride s.inner1.stride s.inner0.size s.inner1.size l outer' 0 0 l
+        r ++ foldOuter s.inner0.stride s.inner1.stride s.inner0.size s.inner1.size s.len outer' 0 0 l
       else r
 
 end OffsetsBase
